@@ -12,6 +12,11 @@ SX = "bounded symbolic execution of the real aspire functions on a z3-backed Arr
 CH = "CrossHair symbolic execution (z3) of a bounded operation-sequence harness driving the real aspire methods over dict-backed fakes; only 'Confirmed over all paths' counts"
 
 CHECKS = {
+    "C01": dict(
+        text="Partial (exact expectation on finite sample spaces). The proposal draws from k=2 support points with symbolic probabilities, likelihood and prior take symbolic values there, the generator's weighted draw returns each index vector with the probability the library handed to it, and the MCMC kernel is a lazy exact kernel whose transition probabilities are computed from the target log-density the library handed to it. The real ImportanceSampler.sample and the real MiniPCNSMC/SMCSampler.sample loop (fixed schedules of 1 and 2 steps, N=2) are executed once per outcome of the bounded randomness (4 / 16 / 64 / 144 outcomes); the sum over outcomes of probability times estimate is one polynomial identity over the positive atoms exp(ll_j), exp(lp_j), u_j which the solver decides for ALL densities at once: E[Zhat] = sum_j L_j PI_j (unbiased evidence) and E[Zhat * mean_i f(x_i)] = sum_j L_j PI_j f(s_j) (unbiased weighted particle measure, f = indicator of a support point), and the outcome probabilities sum to one.",
+        note="This decides the part of C01 that is a statement about exact expectations; it is not a statement about Monte-Carlo error on continuous targets, which needs replicates (sampling) and is outside this technique. Outside: continuous targets, adaptive schedules (consistent, not unbiased), k>2 / N>2 (thorough adds N=3 and k=3 for importance sampling), more than 2 tempering steps, EmceeSMC/BlackJAX variants, the third-party kernels, and the on/off invariance of preconditioning (its deterministic content -- bijection and Jacobian in the kernel target -- is decided under C04/C05). Enumerating the outcomes is the expectation integral itself, every outcome enters with its exact symbolic weight.",
+        ref="6/C01, 12.6",
+    ),
     "C02": dict(
         text="Every clause of the weight/evidence/ESS specification is an SMT obligation over all log-density vectors of N<=3 (quick) / N<=5 (thorough) samples, on every feasible path of the real Samples.compute_weights / logsumexp / effective_sample_size / rejection_sample; two-run hyper-properties (permutation, constant shift) are proved in one query. The float clause is decided in the FP sort (Float64 and Float32, N=2; N=3 thorough): for all finite log-weights up to 1e5 and for vectors with -inf entries, log_evidence and the ESS are finite and the relative evidence error is never NaN.",
         note="Reals for floats (ulp rounding outside); generic namespace branch only; generator stub returns arbitrary draws in (0,1); float constants equal to math.log(k) are read as ln k; FP exp/log are uninterpreted with range/monotonicity axioms, FP arithmetic is first abstracted soundly; accuracy (as opposed to finiteness) at extreme magnitudes is not decided.",
@@ -107,7 +112,6 @@ CHECKS = {
 }
 
 NA = {
-    "C01": "A statement about the probability distribution of Monte-Carlo output (expectations, calibrated bounds over replicates); no bounded SMT query expresses an expectation over the proposal, and replicate-based testing is sampling, which this study excludes. Its deterministic ingredients are decided under C02, C04, C05, C08, C09.",
     "C13": "Every round trip goes through h5py/torch/equinox conversions invisible to a solver, the varying inputs are a finite set of structural configurations, and CrossHair cannot exhaust the one pure-Python slice (probed twice: 'Not confirmed' after 600 s). Needs concrete I/O runs, a different technique.",
 }
 
